@@ -39,9 +39,10 @@ man = {
     }],
     'checks': checks,
     'not_applicable': [{'property_id': k, 'reason': v} for k, v in sorted(NOT_APPLICABLE.items())],
-    'notes': 'Static analysis only. quick = the rules of the property on /repo\'s working tree (<2 s each); thorough = '
-             'quick plus the checker\'s own two-way self-test on ast-level variants of the current tree (seeded '
-             'violations must be reported, behaviour-preserving rewrites must stay silent). Exit 2 + ANALYSIS-ERROR = '
+    'notes': 'Static analysis only. quick = the rules of the property on /repo\'s working tree (1-10 s each); thorough = '
+             'quick plus the checker\'s own two-way self-test: ~480 scratch copies of the current tree per property -- text variants, '
+             'the independently seeded changes under seeded/ and the behaviour-preserving patches under benign/ -- analysed in 16 processes, '
+             '2-5 min per property (seeded violations must be reported, behaviour-preserving rewrites must stay silent). Exit 2 + ANALYSIS-ERROR = '
              'the analysis could not be carried out (never a silent pass). See DESIGN.md.',
 }
 json.dump(man, open(os.path.join(HERE, 'MANIFEST.json'), 'w'), indent=1, ensure_ascii=False)
